@@ -100,8 +100,7 @@ func TestDev(t *testing.T) {
 			fmt.Println("   faults:", res.Faults, "probes:", res.Probes)
 		}
 		if res.Known != "" {
-			fmt.Println("   known:", res.Known, "(stopping: process not reusable)")
-			break
+			fmt.Println("   known:", res.Known, "(process not reusable; continuing anyway in dev mode)")
 		}
 	}
 }
